@@ -295,7 +295,7 @@ impl Prop for ExtractProp {
         "Every ordered sequence of the stated length over union/insert operations plus four rewrite-iteration operations (one of them with patterns that repeat a slot) is executed; on the resulting e-graph, for the cost functions AstSize, depth-weighted size (1+2*sum) and a per-operator weighted size: Extractor::new, then for every live class the identity invocation and every injective renaming of its arguments into a 4-slot pool (numeric, textual, $0): extract returns, the result looks up to an invocation eq to the query, cost_rec(result) == get_best_cost == Bellman-Ford least fixpoint over eg.enodes, every free slot of the result is a query argument or a fresh slot above the pre-call watermark; also for every stale handle and through extract()/ast_size_extract(). Non-trivial = execution that did not abort.".into()
     }
     fn assumptions(&self) -> Vec<String> {
-        vec!["histories that panic before extraction are counted as aborted (owned by C08)".into(), "cost functions are strictly monotone with u64 costs".into()]
+        vec!["histories that panic before extraction are reported as a no-answer failure (the same defect is also reported by C08 where its exploration reaches it)".into(), "cost functions are strictly monotone with u64 costs".into()]
     }
     fn describe(&self, tier: Tier, _cfg: &str, seg: usize, idx: u64) -> Value {
         let (a, d) = spaces(tier)[seg];
